@@ -43,8 +43,12 @@ func propC09TwoWriters(r *Run, rr *randRecorder) {
 		return o
 	}
 	a, b := mk(0, pa), mk(1, pb)
-	if r.Choose("tw-same-user", 2) == 1 {
+	switch r.Choose("tw-same-user", 3) {
+	case 1:
 		propC09SameUser(r, w, pa, pb, users[0], cfg)
+		return
+	case 2:
+		propC09TwoRemovers(r, w, pa, pb, users[0], cfg)
 		return
 	}
 	run := func(o *wop, d *Dir) {
@@ -136,4 +140,46 @@ func propC09SameUser(r *Run, w *World, pa, pb *Dir, user string, cfg Config) {
 	r.Steps += 2
 	r.Count("probe:two-writers-same-user-runs")
 	r.Nontrivial(fmt.Sprintf("two-writers-same-user|%s|%d", cfg.Desc(), switches))
+}
+
+// propC09TwoRemovers: two processes remove the same user (the command line next to the running
+// agent, or a retry that overtakes the first attempt). Remove reports nothing, so returning is the
+// acknowledgement: at the moment either of them returns, the user's file is in no power-loss image -
+// also for the one that found the file already unlinked by the other, whose own directory flush may
+// still be to come.
+func propC09TwoRemovers(r *Run, w *World, pa, pb *Dir, user string, cfg Config) {
+	snaps := make([]*simfs.FS, 2)
+	f := w.fs
+	_, switches := w.interleaveReader(f, func() {
+		pa.RemoveUser(user)
+		snaps[0] = f.Clone()
+	}, func(*[]readerObs) {
+		pb.RemoveUser(user)
+		snaps[1] = f.Clone()
+	})
+	r.Add("probe:writer-writer-context-switches", switches)
+	limit := 48
+	if r.Tier == "thorough" {
+		limit = 192
+	}
+	images := 0
+	for i := range snaps {
+		if snaps[i] == nil {
+			continue
+		}
+		w.powerLossImages(snaps[i], limit, func(img *simfs.FS, desc string) {
+			images++
+			for _, e := range []string{".user", ".admin"} {
+				if _, ok := img.Get(cfg.BaseDir + "/" + user + e); ok {
+					r.Fail("durability/remove/two-removers", "two removers of %s; power loss at the moment remover %d returned, image [%s]: %s%s is back", user, i, desc, user, e)
+				}
+			}
+			r.Count("fault:power-loss")
+		})
+	}
+	w.use(f)
+	r.Add("evaluations", images)
+	r.Steps += 2
+	r.Count("probe:two-removers-same-user-runs")
+	r.Nontrivial(fmt.Sprintf("two-removers|%s|%d", cfg.Desc(), switches))
 }
